@@ -230,45 +230,77 @@ pub fn panic_msg(p: Box<dyn std::any::Any + Send>) -> String {
 }
 
 /// Builds the graph of the scenario, logging `build`. `None` if `build()` panicked.
+/// Result of `build()` under the watchdog.
+enum Built {
+    Ok(FnGraph<Node>, i64, Vec<String>),
+    Panic(String),
+    Timeout,
+}
+
+/// `build()`, on its own thread whenever the input is large enough for path-counting work to matter (12 functions or
+/// more, or the scenario says so): a build that has not finished after BUILD_SECS is given up -- the thread is left
+/// behind and the harness stops after this scenario. fn_graph's hook sink is thread-local, so the build thread
+/// switches it on itself and hands the events and the pop counter back.
+fn build_watched(b: FnGraphBuilder<Node>, n: usize, force: bool, hooks_on: bool) -> Built {
+    let run = move || {
+        #[cfg(feature = "hooks")]
+        let _ = fn_graph::verif_hooks::drain();
+        let r = catch_unwind(AssertUnwindSafe(move || b.build()));
+        #[cfg(feature = "hooks")]
+        let (pops, evs) = (
+            // the pop counter counts whether or not the event sink is on
+            fn_graph::verif_hooks::rank_pops() as i64,
+            fn_graph::verif_hooks::drain(),
+        );
+        #[cfg(not(feature = "hooks"))]
+        let (pops, evs) = (-1i64, Vec::<String>::new());
+        match r {
+            Ok(g) => Built::Ok(g, pops, evs),
+            Err(p) => Built::Panic(panic_msg(p)),
+        }
+    };
+    if n < 12 && !force {
+        return run();
+    }
+    let (tx, rx) = std::sync::mpsc::channel();
+    std::thread::spawn(move || {
+        #[cfg(feature = "hooks")]
+        if hooks_on {
+            fn_graph::verif_hooks::start();
+        }
+        let _ = tx.send(run());
+    });
+    match rx.recv_timeout(std::time::Duration::from_secs(BUILD_SECS)) {
+        Ok(r) => r,
+        Err(_) => {
+            crate::ABANDON.store(true, std::sync::atomic::Ordering::SeqCst);
+            Built::Timeout
+        }
+    }
+}
+
 pub fn build_logged(scn: &Scenario, w: &W) -> Option<FnGraph<Node>> {
     let b = apply_calls_with(nodes_of(scn), &scn.calls, Some(w), scn.add_fns);
-    if scn.watchdog {
-        // build() on its own thread; given up after BUILD_SECS (the thread is left behind, the harness stops afterwards)
-        let (tx, rx) = std::sync::mpsc::channel();
-        std::thread::spawn(move || {
-            let r = catch_unwind(AssertUnwindSafe(move || b.build()));
-            let _ = tx.send(r);
-        });
-        return match rx.recv_timeout(std::time::Duration::from_secs(BUILD_SECS)) {
-            Ok(Ok(g)) => {
-                let ids: Vec<usize> = g
-                    .iter_insertion_with_indices()
-                    .map(|(i, node)| if i.index() + 1 == node.id { node.id } else { 0 })
-                    .collect();
-                w.borrow_mut().ev(json!({"ev":"build","edges":edges_json(&g),"ranks":ranks_json(&g),
-                    "rank_pops":-1,"ids":ids,"panic":""}));
-                Some(g)
+    let hooks_on = w.borrow().hooks_on;
+    // events fn_graph emitted during the builder calls (none today) stay in front of the build's own
+    w.borrow_mut().drain_hooks();
+    match build_watched(b, scn.n, scn.watchdog, hooks_on) {
+        Built::Ok(g, pops, evs) => {
+            {
+                let mut world = w.borrow_mut();
+                if hooks_on {
+                    for s in evs {
+                        match serde_json::from_str::<Value>(&s) {
+                            Ok(mut v) => {
+                                v["run"] = json!(world.cur_run);
+                                v["hook"] = json!(true);
+                                world.log.push(v);
+                            }
+                            Err(e) => world.log.push(json!({"ev":"hook_parse_error","raw":s,"err":e.to_string()})),
+                        }
+                    }
+                }
             }
-            Ok(Err(p)) => {
-                w.borrow_mut().ev(json!({"ev":"build","edges":[],"ranks":[],"rank_pops":-1,
-                    "ids":[],"panic":panic_msg(p)}));
-                None
-            }
-            Err(_) => {
-                w.borrow_mut().ev(json!({"ev":"build_timeout","n":scn.n,"secs":BUILD_SECS}));
-                crate::ABANDON.store(true, std::sync::atomic::Ordering::SeqCst);
-                None
-            }
-        };
-    }
-    #[cfg(feature = "hooks")]
-    let _ = fn_graph::verif_hooks::drain();
-    match catch_unwind(AssertUnwindSafe(move || b.build())) {
-        Ok(g) => {
-            #[cfg(feature = "hooks")]
-            let pops = fn_graph::verif_hooks::rank_pops() as i64;
-            #[cfg(not(feature = "hooks"))]
-            let pops = -1i64;
             let ids: Vec<usize> = g
                 .iter_insertion_with_indices()
                 .map(|(i, node)| if i.index() + 1 == node.id { node.id } else { 0 })
@@ -278,21 +310,25 @@ pub fn build_logged(scn: &Scenario, w: &W) -> Option<FnGraph<Node>> {
             w.borrow_mut().ev(ev);
             Some(g)
         }
-        Err(p) => {
+        Built::Panic(msg) => {
             w.borrow_mut().ev(json!({"ev":"build","edges":[],"ranks":[],"rank_pops":-1,
-                "ids":[],"panic":panic_msg(p)}));
+                "ids":[],"panic":msg}));
+            None
+        }
+        Built::Timeout => {
+            w.borrow_mut().ev(json!({"ev":"build_timeout","n":scn.n,"secs":BUILD_SECS}));
             None
         }
     }
 }
 
-/// How long `build()` of a watchdog scenario (at most a few hundred functions; normally milliseconds) may take.
+/// How long `build()` may take (inputs of at most ~1100 functions; the code as given needs milliseconds).
 pub const BUILD_SECS: u64 = 30;
 
 pub fn build_quiet(scn: &Scenario) -> Option<FnGraph<Node>> {
     let b = apply_calls_with(nodes_of(scn), &scn.calls, None, scn.add_fns);
-    let r = catch_unwind(AssertUnwindSafe(move || b.build())).ok();
-    #[cfg(feature = "hooks")]
-    let _ = fn_graph::verif_hooks::drain();
-    r
+    match build_watched(b, scn.n, scn.watchdog, false) {
+        Built::Ok(g, _, _) => Some(g),
+        _ => None,
+    }
 }
